@@ -233,6 +233,7 @@ LUTS = {
     "gap": lambda idx: {int(i): 3 * k + 2 for k, i in enumerate(idx)},            # 2,5,8.. (non-contiguous)
     "perm": lambda idx: {int(i): int(j) for i, j in zip(idx, list(idx)[::-1])},   # same label set, reversed
     "shift": lambda idx: {int(i): int(i) + 7 for i in idx},
+    "hole0": lambda idx: {int(i): k + 1 for k, i in enumerate(idx)},              # 1..n: len(table) is a used label
     "gapperm": lambda idx: {int(i): 4 * (len(idx) - 1 - k) + 1 for k, i in enumerate(idx)},  # descending labels with gaps
 }
 
@@ -502,11 +503,11 @@ def enum_transforms(net, tier, hot):
         if not n:
             continue
         lvl = 0 if tab in ("bus", "switch", "xward", "trafo3w") else 3      # 3 = first and last option set (ac, dc)
-        hows = ["gap", "gapperm"] if quick else ["gap", "perm", "shift", "gapperm"]
+        hows = ["gap", "gapperm", "hole0"] if quick else ["gap", "perm", "shift", "gapperm", "hole0"]
         for how in hows:
             if how == "perm" and n < 2:
                 continue
-            T.append([["relabel", tab, how], lvl])
+            T.append([["relabel", tab, how], lvl if (how != "hole0" or tab == "bus") else 1])
         if n >= 2:
             T.append([["rowperm", tab, "rev"], lvl])
             if n >= 3 and not quick:
